@@ -80,7 +80,7 @@ def vec_getitem(ex, st, o, v, i, node):
                 ex.oblig("len_eq", "L%s" % getattr(node, "lineno", "?"), st, to_z3(iv.n) == to_z3(v.n))
             if v.idx is not None and iv.idx is not None:
                 same_index(ex, st, v, iv, node)
-            m, sel = compress(ex, st, v.n, iv.at)
+            m, sel = compress(ex, st, iv.n, iv.at)    # the mask's own length (len_eq checked above): same mask object -> same enumeration
             idx = None
             if v.idx is not None:
                 idx = Idx("masked", labels=(lambda k, p=v.idx, sel=sel: p.labels(sel(to_z3(k)))) if v.idx.labels else None,
@@ -848,11 +848,13 @@ def tab_mask(ex, st, t, mask, node):
         raise Unsupported("boolean mask with a different index token")
     if mask.n is not t.n:
         ex.oblig("len_eq", "L%s" % getattr(node, "lineno", "?"), st, to_z3(mask.n) == to_z3(t.n))
-    m, sel = compress(ex, st, t.n, mask.at)
+    m, sel = compress(ex, st, mask.n, mask.at)
     idx = Idx("masked", labels=(lambda k, p=t.idx, sel=sel: p.labels(sel(to_z3(k)))) if t.idx.labels else None,
               unique=t.idx.unique)
     idx.sel = sel
     idx.parent = t.idx
+    idx.rank = compress.last_rank
+    idx.mask_at = mask.at
     return Tab(m, {c: (lambda k, f=f, sel=sel: f(sel(to_z3(k)))) for c, f in t.cols.items()}, idx, t.elts)
 
 
@@ -963,6 +965,19 @@ def tab_indexer_set(ex, st, ind, t, i, val, node):
                 ex.oblig("len_eq", "L%s" % getattr(node, "lineno", "?"), st, to_z3(rows.n) == to_z3(t.n))
             used(ex, "df.loc[mask, col] = scalar writes exactly the True rows of that column")
             v = st.get(val)
+            if isinstance(v, Vec) and getattr(v.idx, "parent", None) is t.idx and col in t.cols:
+                # value selected from this very frame by a mask: labels align; every assigned row must be one of
+                # the value's rows (otherwise pandas would store NaN there)
+                used(ex, "df.loc[mask, col] = Series aligned on index labels")
+                k = fresh(I, "k")
+                ex.oblig("aligned_labels", "L%s" % getattr(node, "lineno", "?"), st,
+                         z3.ForAll([k], z3.Implies(z3.And(0 <= k, k < to_z3(t.n), _b(rows.at(k))), _b(v.idx.mask_at(k)))))
+                old = t.cols[col]
+                rank = v.idx.rank
+                cols = dict(t.cols)
+                cols[col] = lambda kk, old=old, v=v, rank=rank: merge_val(_b(rows.at(kk)), v.at(rank(to_z3(kk))), old(kk))
+                st.put(ind.ref, Tab(t.n, cols, t.idx, t.elts))
+                return [st]
             if isinstance(v, (Vec, Tab, ListV, tuple)):
                 raise Unsupported("loc store of a vector")
             if col not in t.cols:
@@ -1200,10 +1215,23 @@ def aug_masked(ex, st, n):
         probe = iv.at(z3.IntVal(0))
         if not ((is_z3(probe) and probe.sort() == B) or isinstance(probe, bool)):
             return None
-        if isinstance(vv, (Vec, Tab, ListV, tuple)):
+        if isinstance(vv, (Tab, ListV, tuple)):
             return None
         if ov.ro:
             raise Unsupported("in-place write through a read-only view")
+        if isinstance(vv, Vec):
+            # x[mask] op= v : the j-th True position is combined with v[j]
+            used(ex, "x[mask] op= vector: the j-th True position takes v[j]")
+            if iv.n is not ov.n:
+                ex.oblig("len_eq", "L%s" % n.lineno, s, to_z3(iv.n) == to_z3(ov.n), line=n.lineno)
+            m, sel = compress(ex, s, iv.n, iv.at)
+            rank = compress.last_rank
+            ex.oblig("len_eq", "L%s_value" % n.lineno, s, to_z3(vv.n) == to_z3(m), line=n.lineno)
+            op = type(n.op).__name__
+            s.put(o, ov.with_(at=lambda k, ov=ov, iv=iv, vv=vv, s=s, rank=rank: merge_val(
+                _b(iv.at(k)), coerce_elem(ov, scalar_binop(ex, s, op, ov.at(k), vv.at(rank(to_z3(k))), None)), ov.at(k))))
+            outs.append(s)
+            continue
         used(ex, "x[mask] op= scalar updates exactly the True positions")
         if iv.n is not ov.n:
             ex.oblig("len_eq", "L%s" % n.lineno, s, to_z3(iv.n) == to_z3(ov.n), line=n.lineno)
